@@ -51,10 +51,23 @@ def char_class_guard(F, rep, rule):
     rep.floor(rule, "char append sites in the sanitiser", n, 1)
 
 def predicates_in_closures(F, rep, rule, fn_suffix, want="is_ascii_digit", floor=1):
-    """closures of `fn_suffix` passed to Iterator::all must test `want` on their parameter"""
+    """closures passed to Iterator::all / any over the characters of a string must test `want` on their parameter.
+    fn_suffix None: every function of the sanitiser module (whatever the helpers are called)"""
+    if fn_suffix is None:
+        n_all = 0
+        for p, f0 in sorted(san_fns(F).items()):
+            if f0.kind == "closure" or "::tests::" in p: continue
+            n_all += _predicates_in(F, rep, rule, f0, p.rsplit("::", 1)[-1], want)
+        rep.floor(rule, "digit predicates in the sanitiser module", n_all, floor)
+        return None
     fs = [f for p, f in san_fns(F).items() if p.endswith(fn_suffix)]
     if not rep.anchor(rule, "Sanitizer::" + fn_suffix, fs): return
-    f = mir.inlined(F, fs[0]); n = 0      # helper predicates (is_all_ascii_digits(..)) are seen through
+    n = _predicates_in(F, rep, rule, mir.inlined(F, fs[0]), fn_suffix, want)
+    rep.floor(rule, "digit predicates in " + fn_suffix, n, floor)
+    return fs[0]
+
+def _predicates_in(F, rep, rule, f, fn_suffix, want):
+    n = 0
     for bi, t in f.calls():
         if (mir.callee(t) or "").endswith("Iterator::all") or (mir.callee(t) or "").endswith("Iterator::any"):
             for o in mir.trace_op(f, t[2][1]):
@@ -72,8 +85,7 @@ def predicates_in_closures(F, rep, rule, fn_suffix, want="is_ascii_digit", floor
                         site = "%s line %s" % (c.where(), c.line)
                         if preds == [want]: rep.ok(rule, "%s: all(|c| c.%s())" % (fn_suffix, want), sample=site, nontrivial_key=fn_suffix + str(bi))
                         else: rep.bad(rule, "digit-class:" + fn_suffix, "%s classifies characters with %s instead of %s (Unicode digits would count as digits)" % (fn_suffix, preds, want), site)
-    rep.floor(rule, "digit predicates in " + fn_suffix, n, floor)
-    return f
+    return n
 
 def phase_order(F, rep, rule):
     fs = [f for p, f in san_fns(F).items() if p.endswith("Sanitizer::sanitize_to_string")]
@@ -119,13 +131,48 @@ def integer_sanitiser(F, rep, rule):
     rep.floor(rule, "non-empty return paths of sanitize_to_integer", n, 2)
 
 
+def segment_strippers(F):
+    """private functions of the sanitiser module that (with helpers spliced in) test `chars().all(is_ascii_digit)` on a &str
+    parameter and return that parameter unchanged when the test fails: the per-segment leading-zero strippers, whatever their name"""
+    out = []
+    for p, f in sorted(san_fns(F).items()):
+        if f.kind == "closure" or not f.d.get("ret", "").endswith("String"): continue
+        fi = mir.inlined(F, f, depth=3, ok=lambda F_, c_, cp, g_: g_ is not None and g_.kind != "closure" and cp.startswith("crate::utils::sanitize::"))
+        has_all = [t for bi, t in fi.calls() if (mir.callee(t) or "").endswith("Iterator::all")]
+        if not has_all: continue
+        # which parameter is classified
+        par = None
+        for t in has_all:
+            for kind, data in mir.deep_origins(fi, t[2][0]):
+                if kind == "param" and data.isdigit() and fi.locals[int(data)].startswith("&str"): par = int(data)
+        if par is None: continue
+        # returns the parameter itself on some path where the digits test failed (that is what distinguishes it from the integer sanitiser)
+        try: sps = mir.sym_paths(fi, limit=5000)
+        except mir.TooManyPaths: continue
+        unchanged_on_fail = False
+        for sp in sps:
+            fails = any(d[0] == "call" and str(d[1]).endswith("Iterator::all") and tr is False for d, tr, b in sp.facts()) or any(d[0] == "call" and str(d[1]).endswith("::is_empty") and tr is True for d, tr, b in sp.facts())
+            r = sp.ret()
+            while isinstance(r, tuple) and r[0] == "call" and r[2] and any(str(r[1]).endswith(x) for x in ("::to_string", "::to_owned", "Deref>::deref", "Clone>::clone")): r = r[2][0]
+            if fails and r == ("param", par): unchanged_on_fail = True
+        if unchanged_on_fail: out.append((f, fi, par))
+    return out
+
 def zero_strip_result(F, rep, rule):
     """On the all-digits paths of remove_leading_zeros_from_segment nothing may turn the raw segment text into the result:
     every string built there is trim_start_matches('0') of the segment, the constant "0", or the Display of a parsed integer.
     Path-based over the inlined body, so helper predicates / helper strippers are seen through."""
-    fs = [f for p, f in san_fns(F).items() if p.endswith("Sanitizer::remove_leading_zeros_from_segment")]
-    if not rep.anchor(rule, "Sanitizer::remove_leading_zeros_from_segment", fs): return
-    f = mir.inlined(F, fs[0])
+    cands = segment_strippers(F)
+    # the innermost candidate is the per-segment stripper: the functions that call it contain its test too once it is spliced in
+    names = {c[0].path for c in cands}
+    cg_ = mir.CallGraph(F)
+    def reaches_other(f0):
+        return any(p in names and p != f0.path for p in cg_.closure([f0.path], generic=False))
+    cands = [c for c in cands if not reaches_other(c[0])] or cands
+    if not cands:
+        rep.undecided(rule, "segment-stripper-not-found", "no function of the sanitiser module classifies a segment with chars().all(is_ascii_digit) and returns it unchanged otherwise", None); return
+    f0, f, PAR = cands[0]
+    rep.fn_seen(f0)
     CTORS = ("ToString>::to_string", "ToOwned>::to_owned", "String as std::convert::From", "Clone>::clone", "str>::to_string", "std::string::String::from", "::to_string", "::to_owned")
     def peel(e):
         while isinstance(e, tuple) and e[0] == "call" and isinstance(e[1], str) and any(e[1].endswith(x) for x in ("Deref>::deref", "String::as_str", "::as_ref", "::borrow")) and e[2]:
@@ -141,7 +188,7 @@ def zero_strip_result(F, rep, rule):
         for b, name, args, t in sp.calls:
             if isinstance(name, str) and any(name.endswith(x) or x in name for x in CTORS) and args:
                 n += 1
-                if peel(args[0]) == ("param", 2): bad.add("%s bb%d line %s" % (f.where(), b, f.blocks[b]["line"]))
+                if peel(args[0]) == ("param", PAR): bad.add("%s bb%d line %s" % (f.where(), b, f.blocks[b]["line"]))
             for a in args:
                 if isinstance(a, tuple) and a[0] == "closure":
                     c = F.fn(a[1])
@@ -154,7 +201,7 @@ def zero_strip_result(F, rep, rule):
                             for o in mir.trace_op(c, t2[2][0], transparent=("ops::Deref>::deref", "String::as_str", "convert::AsRef")):
                                 if o.kind == "upvar":
                                     ce = caps.get(o.data) or caps.get(str(o.data).lstrip("*&"))
-                                    if ce is not None and peel(ce) == ("param", 2): bad.add("%s bb%d line %s" % (c.where(), bi2, c.blocks[bi2]["line"]))
+                                    if ce is not None and peel(ce) == ("param", PAR): bad.add("%s bb%d line %s" % (c.where(), bi2, c.blocks[bi2]["line"]))
     if bad:
         rep.bad(rule, "zeros-not-stripped", "on the all-digits branch the segment text can be returned without stripping its leading zeros (%s): e.g. a digit run too long for an integer parse keeps its zeros" % sorted(bad), f.where())
     else:
@@ -198,9 +245,12 @@ def replace_result_origin(F, rep, rule):
 
 def zero_strip_paths(F, rep, rule):
     """path-sensitive form of the zero-strip rule: on every path where all(is_ascii_digit) held, the result is not the raw segment"""
-    fs = [f for p, f in san_fns(F).items() if p.endswith("Sanitizer::remove_leading_zeros_from_segment")]
-    if not fs: return
-    f = mir.inlined(F, fs[0])
+    cands = segment_strippers(F)
+    names = {c[0].path for c in cands}
+    cg_ = mir.CallGraph(F)
+    cands = [c for c in cands if not any(p in names and p != c[0].path for p in cg_.closure([c[0].path], generic=False))] or cands
+    if not cands: return
+    f0, f, PAR = cands[0]
     n = 0; bad = []
     for p in mir.enum_paths(f, limit=5000):
         if f.blocks[p[-1]]["t"][0] != "ret": continue
@@ -212,7 +262,7 @@ def zero_strip_paths(F, rep, rule):
         inner = r
         while isinstance(inner, tuple) and inner[0] == "call" and isinstance(inner[1], str) and any(inner[1].endswith(x) for x in ("ToString>::to_string", "::to_string", "::to_owned", "Deref>::deref", "Clone>::clone")):
             inner = inner[2][0]
-        if inner == ("param", 2):
+        if inner == ("param", PAR):
             bad.append("conditions %s" % [mir.show(d)[:50] for d, o, b in sp.conds])
     if bad: rep.bad(rule, "zeros-not-stripped-path", "an all-digit segment can be returned verbatim (leading zeros kept) on a path where the digits test succeeded: %s" % bad[:1], f.where())
     elif n: rep.ok(rule, "no all-digits path returns the raw segment (%d paths)" % n, nontrivial_key="zsp")
